@@ -63,6 +63,8 @@ type CryptDoc struct {
 	MetaTitle string
 	// DeferredPuts counts the objects Put while a stream was open.
 	DeferredPuts int
+	// OtherMetadataStreams counts the streams with /Type /Metadata besides the catalog's.
+	OtherMetadataStreams int
 }
 
 // canary returns 16 random letters: never escaped in a literal string, so a
@@ -172,6 +174,13 @@ func BuildCryptDoc(r *kit.Rand, cfg CryptConfig) (*CryptDoc, error) {
 		default:
 			ref := w.Alloc()
 			dict := pdf.Dict{"InStreamDict": str("stream dict "), "Same": shared}
+			if r.Chance(1, 4) {
+				// a metadata stream that is not the catalog's: encrypted like any
+				// other stream, whatever /EncryptMetadata says
+				dict["Type"] = pdf.Name("Metadata")
+				dict["Subtype"] = pdf.Name("XML")
+				d.OtherMetadataStreams++
+			}
 			body := append([]byte("stream body "), canary(r)...)
 			d.Canaries = append(d.Canaries, body[len(body)-16:])
 			body = append(body, r.Bytes(r.Intn(200))...)
